@@ -7,7 +7,7 @@
    "accepts n" = n items presented one after the other from the initial state are all lim_accepted:
    in every theorem the L-th item IS accepted and the (L+1)-th is the first one refused. *)
 From Coq Require Import ZArith NArith List Bool.
-From YV Require Import Base.Cmp gen.GenConsts gen.GenLimits Model.Limits Proofs.LimitsProofs.
+From YV Require Import Base.Cmp gen.GenConsts gen.GenLimits Model.Limits Proofs.LimitsProofs Model.ReEmit Proofs.ReEmitProofs.
 Import ListNotations.
 Local Open Scope Z_scope.
 
@@ -55,6 +55,32 @@ Print Assumptions limit_exact_fibers.
 Theorem limit_exact_re_range : forall hi, re_range_rejects hi = false <-> hi <= RE_MAX_RANGE.
 Proof. exact limit_exact_re_range_proof. Qed.
 Print Assumptions limit_exact_re_range.
+
+(* regular-expression SIZE: every split / jump of the code stores a 16-bit signed relative offset (repeat instructions a
+   32-bit one).  For every regexp (shape [emrx]: literals, `.`, classes, concatenation, |, *, +, ?, {n,m}, {n,}) re.c answers
+   ERROR_REGULAR_EXPRESSION_TOO_LARGE exactly when some stored offset would not fit its field; the (operator, limit) of
+   each of the eight distance tests of _yr_re_emit and the instruction sizes are regenerated from re.c. *)
+Theorem limit_exact_re_size : forall r, em_wf r = true -> em_size r < 2147483648 -> em_ok r = em_fits r.
+Proof. exact emit_ok_exact_proof. Qed.
+Print Assumptions limit_exact_re_size.
+
+(* the boundary at every emit site, in bytes of code of the sub-expression (a literal is 2 bytes, `.` 1, a class 34):
+   (e1|e2): size(e1) <= 32760 and size(e2) <= 32764;  (e)*: size(e) <= 32760;  (e)+: size(e) <= 32768;
+   (e)?, (e){n,m}, (e){n,}: size(e) <= 32763;  (e){n}: no 16-bit offset *)
+Example re_size_boundaries :
+  em_ok (EmAlt (EmCat (em_body 16379) (EmCat EmAny EmAny)) EmLit) = true /\ em_ok (EmAlt (EmCat (em_body 16380) EmAny) EmLit) = false /\
+  em_ok (EmAlt EmLit (em_body 16382)) = true /\ em_ok (EmAlt EmLit (EmCat (em_body 16382) EmAny)) = false /\
+  em_ok (EmStar (em_body 16380)) = true /\ em_ok (EmStar (EmCat (em_body 16380) EmAny)) = false /\
+  em_ok (EmPlus (em_body 16384)) = true /\ em_ok (EmPlus (EmCat (em_body 16384) EmAny)) = false /\
+  em_ok (EmRange 0 1 (EmCat (em_body 16381) EmAny)) = true /\ em_ok (EmRange 0 1 (em_body 16382)) = false /\
+  em_ok (EmRange 2 32767 (EmCat (em_body 16381) EmAny)) = true /\ em_ok (EmRange 2 32767 (em_body 16382)) = false /\
+  em_ok (EmRange 3 3 (em_body 20000)) = true.
+Proof. exact boundaries. Qed.
+
+(* outside [em_wf]: e{0} emits no code; a + over it has distance 0, which the unsigned distance test reads as too large *)
+Theorem re_plus_over_empty_refuted : em_fits (EmPlus (EmRange 0 0 EmLit)) = true /\ em_ok (EmPlus (EmRange 0 0 EmLit)) = false.
+Proof. exact plus_over_empty_refuted. Qed.
+Print Assumptions re_plus_over_empty_refuted.
 
 (* RE_MAX_STACK has no test in the code.  Partial: proved is only the arithmetic core (a nesting of d
    counted repeats needs code of size >= 3^d; 3^d <= INT16_MAX implies d < RE_MAX_STACK); that every
